@@ -79,6 +79,15 @@ def proj_key(p):
     return tuple(out)
 
 
+def _cfield(f):
+    """field of an enum/struct constant: its integer value, or ("ptrto", n) for a reference to the integer n"""
+    if f.get("v") is not None:
+        return f["v"]
+    if f.get("pv") is not None:
+        return ("ptrto", f["pv"])
+    return None
+
+
 def _canon_ite(t):
     """conditional values with a closed arithmetic meaning"""
     _, c, a, b = t
@@ -287,11 +296,11 @@ class TB:
         if k.get("deref_const") is not None:
             d = k["deref_const"]
             if "variant" in d:
-                return ("ref", ("cs", d.get("val_s"), d["variant"], tuple(f.get("v") for f in d.get("fields", []))))
+                return ("ref", ("cs", d.get("val_s"), d["variant"], tuple(_cfield(f) for f in d.get("fields", []))))
             return ("ref", ("cs", d.get("val_s")))
         if "variant" in k:
             return ("cs", k.get("val_s") or k.get("s"), k["variant"],
-                    tuple(f.get("v") for f in k.get("fields", [])))
+                    tuple(_cfield(f) for f in k.get("fields", [])))
         return ("cs", k.get("val_s") or k.get("s"))
 
     def place(self, pl, at):
